@@ -890,6 +890,14 @@ class TaskScenario(ScenarioData):
                         efficiency = eff
                     break
 
+        # A team gains effort at the rate of its most efficient member (bookResources counts
+        # the maximum gain of any member per slot), whichever member happened to be booked last
+        if self._lastBookedSlot == self.currentSlotIdx and len(self._slotUsedBefore) > 1:
+            for member in self._slotUsedBefore:
+                eff = member.get("efficiency", self.scenarioIdx)
+                if eff is not None and eff > efficiency:
+                    efficiency = eff
+
         # Calculate effort gained per second in this slot
         slot_duration_hours = slot_duration_seconds / 3600.0
         effort_per_slot = slot_duration_hours * efficiency
